@@ -545,14 +545,67 @@ func (b *Backend) Remove(ctx context.Context, h backend.Handle) error {
 	return b.done(op, ans, ctx.Err())
 }
 
+// Load: besides "ok" and "err" the answer "retried" may be offered (Alts): the transfer breaks off after
+// half of the bytes and the consumer is then called a second time, within the same Load, with the complete
+// data.  That is what the retry layer of every production backend stack does on top of a flaky transport,
+// and what the interface allows ("fn may be called multiple times during the same Load invocation and
+// therefore must be idempotent").
 func (b *Backend) Load(ctx context.Context, h backend.Handle, length int, offset int64, fn func(rd io.Reader) error) error {
-	return util.DefaultLoad(ctx, h, length, offset, b.openReader, fn)
+	retried := false
+	err := util.DefaultLoad(ctx, h, length, offset, func(ctx context.Context, h backend.Handle, length int, offset int64) (io.ReadCloser, error) {
+		rc, ans, err := b.openReaderAns(ctx, h, length, offset)
+		if err == nil && ans == "retried" {
+			retried = true
+			buf, _ := io.ReadAll(rc)
+			return io.NopCloser(io.MultiReader(bytes.NewReader(buf[:(len(buf)+1)/2]), errReader{io.ErrUnexpectedEOF})), nil
+		}
+		return rc, err
+	}, fn)
+	if !retried {
+		return err
+	}
+	// second attempt of the same Load: complete data, not a scheduling point of its own
+	k := norm(h)
+	buf, ok := b.S.Get(k)
+	if !ok {
+		return errNotFound
+	}
+	if offset+int64(length) > int64(len(buf)) {
+		return errTooSmall
+	}
+	buf = buf[offset:]
+	if length > 0 {
+		buf = buf[:length]
+	}
+	if err := ctx.Err(); err != nil {
+		return err
+	}
+	return fn(bytes.NewReader(buf))
 }
 
+type errReader struct{ err error }
+
+func (e errReader) Read([]byte) (int, error) { return 0, e.err }
+
 func (b *Backend) openReader(ctx context.Context, h backend.Handle, length int, offset int64) (io.ReadCloser, error) {
+	rc, _, err := b.openReaderAns(ctx, h, length, offset)
+	return rc, err
+}
+
+func (b *Backend) openReaderAns(ctx context.Context, h backend.Handle, length int, offset int64) (io.ReadCloser, string, error) {
+	rc, ans, err := b.openReaderInner(ctx, h, length, offset)
+	return rc, ans, err
+}
+
+func (b *Backend) openReaderInner(ctx context.Context, h backend.Handle, length int, offset int64) (rc io.ReadCloser, ans string, err error) {
 	k := norm(h)
 	op := &Op{Proc: b.Proc, Kind: "Load", Key: k, Sem: b.S.SemName(k), Length: length, Offset: offset}
-	ans := b.gate(op, false, nil)
+	ans = b.gate(op, false, nil)
+	rc, err = b.openReaderTail(ctx, op, k, ans, length, offset)
+	return rc, ans, err
+}
+
+func (b *Backend) openReaderTail(ctx context.Context, op *Op, k FileKey, ans string, length int, offset int64) (io.ReadCloser, error) {
 	switch ans {
 	case "severed":
 		return nil, b.done(op, ans, ErrSevered)
